@@ -15,6 +15,7 @@ type aggregate struct {
 	digests     map[string]struct{}
 	nontrivial  map[string]struct{}
 	states      map[string]struct{}
+	scheds      map[string]struct{}
 	stats       map[string]int
 	samples     []interface{}
 	choices     int64
@@ -26,7 +27,7 @@ type aggregate struct {
 
 func newAggregate() *aggregate {
 	return &aggregate{perVariant: map[string]int{}, digests: map[string]struct{}{}, nontrivial: map[string]struct{}{},
-		states: map[string]struct{}{}, stats: map[string]int{}, firstRun: -1}
+		states: map[string]struct{}{}, scheds: map[string]struct{}{}, stats: map[string]int{}, firstRun: -1}
 }
 
 func (a *aggregate) add(v Variant, rr *RunResult) {
@@ -39,6 +40,9 @@ func (a *aggregate) add(v Variant, rr *RunResult) {
 	}
 	for _, s := range rr.States {
 		a.states[s] = struct{}{}
+	}
+	for _, sc := range rr.Scheds {
+		a.scheds[sc] = struct{}{}
 	}
 	for k, n := range rr.Stats {
 		a.stats[k] += n
@@ -94,29 +98,31 @@ func (a *aggregate) writeEvidence(cfg *PropCfg, tier string, seed uint64, wall, 
 		variants = append(variants, fmt.Sprintf("%s: %s: %d runs", v.Name, s, a.perVariant[v.Name]))
 	}
 	cov := map[string]interface{}{
-		"evaluations":         a.evals,
-		"distinct_nontrivial": len(a.nontrivial),
-		"rule":                cfg.Rule,
-		"samples":             samples,
-		"exhaustive":          false,
-		"distinct_runs":       len(a.digests),
-		"distinct_states":     len(a.states),
-		"distinct_states_measure": "distinct 64-bit digests of canonical segment answers / (task,op,result) event triples / schedule prefixes reached (each run reports at most 64)",
-		"runs_per_hour":       int(perHour),
-		"seeds":               map[string]interface{}{"base": seed, "first_run_index": a.firstRun, "last_run_index": a.lastRun, "derivation": "splitmix64(VERIF_SEED, property, run index) -> xoshiro256** per run"},
-		"choices_drawn":       a.choices,
-		"scheduler_steps":     a.stats["sim.steps"],
-		"task_switches":       a.stats["sim.switches"],
-		"simulated_time":      simTimeNote(cfg.ID, a.stats),
-		"faults_fired":        a.group("fault."),
-		"reach_probes":        a.group("probe."),
-		"operations":          a.group("op."),
-		"other_counters":      a.otherCounters(),
-		"probes_at_zero":      zeroProbes,
-		"binary_variants":     variants,
-		"real_vs_stub":        realStub,
-		"cpu_ms_in_runs":      a.millis,
-		"build_s":             buildS,
+		"evaluations":                    a.evals,
+		"distinct_nontrivial":            len(a.nontrivial),
+		"rule":                           cfg.Rule,
+		"samples":                        samples,
+		"exhaustive":                     false,
+		"distinct_runs":                  len(a.digests),
+		"distinct_states":                len(a.states),
+		"distinct_states_measure":        "distinct 64-bit digests of canonical segment answers / (task,op,result) event triples / schedule prefixes reached (each run reports at most 64)",
+		"distinct_interleavings":         len(a.scheds),
+		"distinct_interleavings_measure": "distinct (number of tasks, first 16 scheduler picks) pairs among the simulations of this batch; 0 for drivers without concurrent tasks",
+		"runs_per_hour":                  int(perHour),
+		"seeds":                          map[string]interface{}{"base": seed, "first_run_index": a.firstRun, "last_run_index": a.lastRun, "derivation": "splitmix64(VERIF_SEED, property, run index) -> xoshiro256** per run"},
+		"choices_drawn":                  a.choices,
+		"scheduler_steps":                a.stats["sim.steps"],
+		"task_switches":                  a.stats["sim.switches"],
+		"simulated_time":                 simTimeNote(cfg.ID, a.stats),
+		"faults_fired":                   a.group("fault."),
+		"reach_probes":                   a.group("probe."),
+		"operations":                     a.group("op."),
+		"other_counters":                 a.otherCounters(),
+		"probes_at_zero":                 zeroProbes,
+		"binary_variants":                variants,
+		"real_vs_stub":                   realStub,
+		"cpu_ms_in_runs":                 a.millis,
+		"build_s":                        buildS,
 	}
 	ev := map[string]interface{}{
 		"property_id": cfg.ID,
